@@ -6,7 +6,11 @@ Driver for C20: the executable model of /repo/bin (TdModel.Model.Bin), one reque
   seq <k1,k2,…> <hex>       → <v1> <v2> … | <resthex>     or   <v1> … err <tag>   or  … panic
   hdr <len>                 → <hex of the length prefix> <pad> <total length>   (no payload needed)
 
-kinds: u32 i32 u64 i64 f64 bool i128 i256 bytes str vec
+  peek <hex>                → ok <id> | err <tag> | panic                    (PeekID: nothing consumed)
+  consume <id> <hex>        → ok <resthex> | err <tag> | panic              (ConsumeID)
+  getn <n> <hex>            → ok <hex> <resthex> | err <tag> | panic        (ConsumeN into a buffer of n bytes)
+
+kinds: u32 id i32 u64 i64 i53 f64 bool i128 i256 bytes str vec
 -/
 import TdModel.Model.Bin
 open TdModel TdModel.Bin
@@ -40,6 +44,8 @@ def showOut {α : Type} (o : Out (α × Bytes)) (f : α → String) : String :=
 def encKind (k v : String) : Option Bytes :=
   match k with
   | "u32" => v.toNat?.map putU32
+  | "id" => v.toNat?.map putU32
+  | "i53" => v.toInt?.map putInt64
   | "i32" => v.toInt?.map putInt32
   | "u64" => v.toNat?.map putU64
   | "i64" => v.toInt?.map putInt64
@@ -61,6 +67,8 @@ def decKind (k : String) (b : Bytes) : Option (Out (String × Bytes)) :=
     | .panic => .panic
   match k with
   | "u32" => some (m (getU32P b) toString)
+  | "id" => some (m (getU32P b) toString)
+  | "i53" => some (m (getInt64P b) toString)
   | "i32" => some (m (getInt32P b) toString)
   | "u64" => some (m (getU64P b) toString)
   | "i64" => some (m (getInt64P b) toString)
@@ -95,6 +103,21 @@ def handle (line : String) : String :=
   | ["seq", ks, h] => match ofHexFast h with
     | some b => (decSeq (ks.splitOn ",") b []).getD "bad-op"
     | none => "bad-op"
+  | ["peek", h] => match ofHexFast h with
+    | some b => match peekIDP b with
+      | .ok v => "ok " ++ toString v
+      | .err e => "err " ++ e.tag
+      | .panic => "panic"
+    | none => "bad-op"
+  | ["consume", id, h] => match id.toNat?, ofHexFast h with
+    | some id, some b => match consumeIDP id b with
+      | .ok (_, r) => "ok " ++ toHex r
+      | .err e => "err " ++ e.tag
+      | .panic => "panic"
+    | _, _ => "bad-op"
+  | ["getn", n, h] => match n.toNat?, ofHexFast h with
+    | some n, some b => showOut (getNP n b) toHex
+    | _, _ => "bad-op"
   | ["hdr", l] => match l.toNat? with
     | some n =>
       let hd := bytesHeader n
